@@ -1,3 +1,4 @@
+import re
 """C10 -- number to text (thin: digit tables, IEEE parameter tables, buffer sizes, index bounds)."""
 from qlib import astq, tab, pwl
 from qlib.bitsym import Unrecognised
@@ -23,6 +24,8 @@ META["explanation"] += " " + "(PR-point) in formatStringNumberFixed / formatStri
 META["explanation"] += " " + '(LOSS-sticky) abstract paths through realToString: every shift or division that drops bits or digits of the big integer is followed, on every path to a formatter, by an assignment of the round-up flag (shifts by the trailing-zero count or by a literally-zero amount are lossless). (ROUND-lower) the flag handed to roundStringNumber includes a scan of the digits below the rounding position. (SHIFT-width, shared with C19) every shift of a BigInt word is by less than the word width.'
 META["explanation"] += " " + '(DOT-digit) every append of the decimal point is followed by an unconditional digit or by a run of `precision` zeros reached only where precision != 0 was established (must-analysis). (P0-map) NumberToString maps (Default, precision 0) to precision 1 before the number is formatted.'
 
+
+META["explanation"] += " " + '(STICKY-src) every disjunct of the flag handed to roundStringNumber, and of every definition of the locals it mentions, is a bool parameter, one of those locals, the literal false, or a comparison of a digit-string unit with DigitChar::Zero. (STICKY-keep) a bool local that accumulates (|=, or an expression containing itself) is not plainly overwritten on any path after it accumulated. (REL-length) in the formatters that take started_at, stream.Length() (or a local copy of it) is never compared with a literal: lengths of the number are Length() - started_at.'
 
 def run(ctx):
     m = ctx.pattern()
@@ -230,6 +233,9 @@ def run(ctx):
     rules.append(rule_point_bound(ctx, m))
     rules.append(rule_loss_sticky(ctx, m))
     rules.append(rule_round_lower(ctx, m))
+    rules.append(rule_sticky_sources(ctx, m))
+    rules.append(rule_sticky_keep(ctx, m))
+    rules.append(rule_relative_length(ctx, m))
     # the digit generator multiplies and shifts a BigInt: a shift by the full word width is undefined there too
     from rules.C19 import rule_shift_width
     from qlib.zone import ContractTable, Contract
@@ -488,6 +494,176 @@ def rule_round_lower(ctx, m):
                  "the flag `%s` says nothing about the digits of the string below the rounding position: when the string is longer than precision + 1 digits (the digit-count estimate is one short just above a power of ten) a value above a tie is rounded as an exact tie (116656 at %%.4g gives 1.166e+05)" % f.text(flag)[:40], f.loc(c))
     return r
 
+
+
+def rule_sticky_sources(ctx, m):
+    """STICKY-src: the flag handed to roundStringNumber answers one question -- is the value ABOVE what the kept digits and the
+    digit at the rounding position show -- and an exact tie is rounded to even only when it is false.  Everything that feeds the
+    flag therefore has to be a statement about dropped precision: the flag the caller was given (bits and digits lost before the
+    digit string was built) or a test of a digit below the position against the zero digit.  Rule: decompose the flag argument and
+    every definition of the locals it mentions into disjuncts; each disjunct is a bool parameter, one of those locals, the literal
+    false, or a comparison of a unit of the digit string with DigitChar::Zero.  A disjunct about a COUNT (how many zeros lead the
+    fraction) makes every tie behind leading zeros round up (0.0625 at three decimals printed 0.063)."""
+    r = Rule("STICKY-src", "every term of the flag handed to the rounding helper is the incoming flag or a non-zero test of a dropped digit", floor=2)
+    for q in ("Qentem::Digit::formatStringNumberFixed", "Qentem::Digit::formatStringNumberDefault"):
+        fs = [f for f in m.fns(q, required=False) if not f.inst and f.cfg]
+        if not fs:
+            r.broke("%s not found" % q)
+            continue
+        f = fs[0]
+        bool_params = set(p_["n"] for p_ in f.params if p_.get("tk") == "bool")
+        for c in astq.calls(f, "roundStringNumber"):
+            args = f.call_args(c)
+            if len(args) < 4:
+                continue
+            ctx.note_fn(f)
+            flag = args[3]
+            locs = {}
+            for y in f.walk(flag):
+                yn = f.nodes[y]
+                if yn["k"] == "DeclRefExpr" and yn.get("dk") == "var" and yn.get("tk") == "bool":
+                    locs[yn["d"]] = yn["n"]
+            sources = [(flag, "the argument")]
+            for st_ in astq.nodes_of(f, "DeclStmt"):
+                for d in f.nodes[st_]["decls"]:
+                    if d.get("d") in locs and d.get("init", -1) >= 0:
+                        sources.append((d["init"], "initialiser of " + d["n"]))
+            for y in f.walk():
+                yn = f.nodes[y]
+                if yn["k"] in ("BinaryOperator", "CompoundAssignOperator") and yn.get("op") in ("=", "|=") and f.nodes[f.strip(yn["ch"][0])].get("d") in locs:
+                    sources.append((yn["ch"][1], "assignment to " + locs[f.nodes[f.strip(yn["ch"][0])]["d"]]))
+
+            def disjuncts(x, out):
+                x = f.strip_casts(x)
+                n_ = f.nodes[x]
+                while n_["k"] == "ParenExpr":
+                    x = f.strip_casts(n_["ch"][0])
+                    n_ = f.nodes[x]
+                if n_["k"] == "BinaryOperator" and n_["op"] in ("|", "||"):
+                    disjuncts(n_["ch"][0], out)
+                    disjuncts(n_["ch"][1], out)
+                else:
+                    out.append(x)
+            bad = None
+            for src, where in sources:
+                ds = []
+                disjuncts(src, ds)
+                for x in ds:
+                    n_ = f.nodes[x]
+                    if n_["k"] == "DeclRefExpr" and (n_.get("n") in bool_params or n_.get("d") in locs):
+                        continue
+                    if f.const_value(x) == 0:
+                        continue
+                    if n_["k"] == "BinaryOperator" and n_["op"] in ("!=", ">") and "Zero" in f.text(x) and \
+                            any(f.nodes[z]["k"] in ("ArraySubscriptExpr",) or (f.nodes[z]["k"] == "UnaryOperator" and f.nodes[z].get("op") == "*") for z in f.walk(x)):
+                        continue
+                    bad = (x, where)
+                    break
+                if bad:
+                    break
+            r.ob(f.q, f.text(c)[:70], bad is None, "every term of the flag is the incoming flag or a digit test" if bad is None else
+                 "`%s` (%s) is not a statement about dropped digits: with it set an exact tie is rounded up instead of to even (0.0625 at three decimals gives 0.063)"
+                 % (f.text(bad[0])[:40], bad[1]), f.loc(bad[0]) if bad else f.loc(c))
+    return r
+
+
+def rule_sticky_keep(ctx, m):
+    """STICKY-keep: a bool local that collects "something non-zero was dropped" over several steps (it is assigned with |=, or
+    from an expression that contains itself) is sticky: once true it stays true.  After its first accumulating assignment every
+    further assignment to it, on any path, has to contain it again (x |= e, x = e || x); a plain x = e there forgets what the
+    earlier steps dropped (the remainder of the 5^27 divisions is lost when the last, smaller division is exact: 2.5e+29 at one
+    digit prints 2e+29).  Flow-sensitive on the CFG: must the flag have been accumulated into before the plain assignment?
+    May-analysis suffices: a plain assignment reachable from an accumulating one is a finding."""
+    from qlib import dataflow
+    r = Rule("STICKY-keep", "a flag that accumulates dropped remainders is never plainly overwritten after it accumulated", floor=1)
+    for f in m.functions:
+        if f.inst or not f.cfg or not f.file.endswith("/Digit.hpp"):
+            continue
+        bools = {}
+        for st_ in astq.nodes_of(f, "DeclStmt"):
+            for d in f.nodes[st_]["decls"]:
+                if d.get("tk") == "bool" and "d" in d:
+                    bools[d["d"]] = d["n"]
+        if not bools:
+            continue
+        acc, plain = {}, {}
+        for y in f.walk():
+            yn = f.nodes[y]
+            if yn["k"] in ("BinaryOperator", "CompoundAssignOperator") and yn.get("op") in ("=", "|="):
+                ld = f.nodes[f.strip(yn["ch"][0])].get("d")
+                if ld not in bools:
+                    continue
+                selfref = any(f.nodes[z]["k"] == "DeclRefExpr" and f.nodes[z].get("d") == ld for z in f.walk(yn["ch"][1]))
+                if yn["op"] == "|=" or selfref:
+                    acc.setdefault(ld, []).append(y)
+                elif f.const_value(yn["ch"][1]) is None:
+                    plain.setdefault(ld, []).append(y)
+        for ld in acc:
+            ctx.note_fn(f)
+            bad = None
+            blocks = f.blocks()
+            for a in acc[ld]:
+                ab = dataflow.block_of(f, a)
+                if ab is None:
+                    continue
+                # blocks reachable from a (strictly after it)
+                seen, work = set(), [s_ for s_, _, _ in dataflow.successors(f, blocks[ab])]
+                while work:
+                    b_ = work.pop()
+                    if b_ in seen:
+                        continue
+                    seen.add(b_)
+                    work.extend(s_ for s_, _, _ in dataflow.successors(f, blocks[b_]))
+                for p_ in plain.get(ld, []):
+                    pb = dataflow.block_of(f, p_)
+                    els = [e.get("n") for e in blocks[ab]["el"]]
+                    if pb in seen or (pb == ab and p_ in els and a in els and els.index(p_) > els.index(a)):
+                        bad = (p_, a)
+                        break
+                if bad:
+                    break
+            r.ob(f.q, "flag %s" % bools[ld], bad is None, "every assignment after `%s` keeps the flag" % f.text(acc[ld][0])[:50] if bad is None else
+                 "`%s` overwrites the flag after `%s` accumulated into it: what the earlier steps dropped is forgotten (the value is then rounded as an exact tie)"
+                 % (f.text(bad[0])[:60], f.text(bad[1])[:50]), f.loc(bad[0]) if bad else f.loc(acc[ld][0]))
+    return r
+
+
+def rule_relative_length(ctx, m):
+    """REL-length: the formatters append to a stream that may already hold text; the number they are writing starts at
+    `started_at`.  Every question about HOW MANY units the number has is therefore about Length() - started_at.  Rule: in the
+    functions of Digit.hpp that take started_at, stream.Length() (or a local initialised from it alone) is never compared with an
+    integer literal other than through a difference with started_at: `Length() == 1` is true for "7" in an empty stream and false
+    for "price: 7" (-0.0000001 at six decimals printed -00000000)."""
+    r = Rule("REL-length", "lengths of the number being formatted are taken relative to started_at", floor=1)
+    for f in m.functions:
+        if f.inst or not f.cfg or not f.file.endswith("/Digit.hpp") or not any(p_["n"] == "started_at" for p_ in f.params):
+            continue
+        ctx.note_fn(f)
+        absolute = set()
+        for st_ in astq.nodes_of(f, "DeclStmt"):
+            for d in f.nodes[st_]["decls"]:
+                if d.get("init", -1) >= 0 and re.sub(r"\s+", "", f.text(f.strip_casts(d["init"]))) in ("stream.Length()", "(stream.Length())"):
+                    absolute.add(d["d"])
+
+        def is_abs(x):
+            x = f.strip_casts(x)
+            n_ = f.nodes[x]
+            while n_["k"] == "ParenExpr":
+                x = f.strip_casts(n_["ch"][0])
+                n_ = f.nodes[x]
+            if n_["k"] == "DeclRefExpr" and n_.get("d") in absolute:
+                return True
+            return n_["k"] in ("CallExpr", "CXXMemberCallExpr") and f.call_simple_name(x) == "Length" and "stream" in f.text(x)
+        sites = 0
+        for y in f.walk():
+            yn = f.nodes[y]
+            if yn["k"] == "BinaryOperator" and yn["op"] in ("==", "!=", "<", "<=", ">", ">="):
+                for a_, b_ in ((yn["ch"][0], yn["ch"][1]), (yn["ch"][1], yn["ch"][0])):
+                    if is_abs(a_) and f.const_value(f.strip_casts(b_)) is not None:
+                        sites += 1
+                        r.ob(f.q, f.text(y)[:60], False, "the absolute length of the stream is compared with %s: text already in the stream (or a sign) changes the answer -- the length of the number is Length() - started_at" % f.text(b_), f.loc(y))
+        r.ob(f.q, "comparisons of Length() with a literal", sites == 0, "none compares the absolute stream length with a literal", "Include/Digit.hpp:%d" % f.line)
+    return r
 
 
 def rule_dot_digit(ctx, m):
